@@ -22,6 +22,7 @@ type Clause struct {
 	Exprs  []*Expr
 	Where  string // file:line
 	KnownK string // id of known finding carve-out attached (if any)
+	Needs  []string // labels of the clauses whose assumed facts this obligation may use (empty: all)
 }
 
 func (c *Clause) Tag() string {
@@ -121,7 +122,7 @@ var clauseKeywords = map[string]bool{
 	"invariant": true, "package": true, "fnparam": true, "nullable": true, "pure": true, "nobody": true, "gaxiom": true, "useret": true, "implements": true, "define": true, "transition": true,
 }
 
-var labelRe = regexp.MustCompile(`^\[([A-Za-z0-9,]*):([A-Za-z0-9_\-./]+)\]\s*`)
+var labelRe = regexp.MustCompile(`^\[([A-Za-z0-9,]*):([A-Za-z0-9_\-./]+)(?:\|([A-Za-z0-9_\-./,~]*))?\]\s*`)
 var funcHdrRe = regexp.MustCompile(`^(?:\(\s*(?:\w+\s+)?\*?(\w+)\s*\)\s*)?([\w$]+)$`)
 
 type rawLine struct {
@@ -184,6 +185,9 @@ func (cs *Contracts) loadFile(path string, goFile bool) error {
 					c.Props = strings.Split(m[1], ",")
 				}
 				c.Label = m[2]
+				if m[3] != "" {
+					c.Needs = strings.Split(m[3], ",")
+				}
 				rest = rest[len(m[0]):]
 			}
 			c.Text = rest
